@@ -174,25 +174,25 @@ func c06Sess(f []string) string {
 		}
 		return strings.Join(acts, " ")
 	}
-	first := drain()
-	if !strings.HasPrefix(first, "scr:") || strings.Contains(first, " ") {
-		return "start:" + first
-	}
+	first := drain() // "scr:..." when startNCP started IPCP, "-" when it did not
 	parts = append(parts, first+" a="+c06ShowAddr(s.IPv4Address)+" pa="+c06ShowAddr(s.ipcp.PeerConfig().PeerAddress))
 	for _, ev := range f[1:] {
 		switch {
 		case ev == "k":
 			if lastReq == nil {
-				return "noreq"
+				// IPCP never sent a request: identifier 0 is what the FSM would accept
+				s.ipcp.FSM().Input(ppp.ConfAck, 0, nil)
+			} else {
+				s.ipcp.FSM().Input(ppp.ConfAck, lastReq.id, lastReq.data)
 			}
-			s.ipcp.FSM().Input(ppp.ConfAck, lastReq.id, lastReq.data)
 		case ev[0] == 'a' || ev[0] == 'n' || ev[0] == 'j':
 			// answer to our last Configure-Request with arbitrary contents
-			if lastReq == nil {
-				return "noreq"
-			}
 			code := map[byte]uint8{'a': ppp.ConfAck, 'n': ppp.ConfNak, 'j': ppp.ConfRej}[ev[0]]
-			s.ipcp.FSM().Input(code, lastReq.id, c06Bytes(ev[1:]))
+			var rid uint8
+			if lastReq != nil {
+				rid = lastReq.id
+			}
+			s.ipcp.FSM().Input(code, rid, c06Bytes(ev[1:]))
 		case ev[0] == 'R':
 			// LCP renegotiated and authentication repeated: the AAA answer is evaluated again and
 			// startNCP runs a second time on the same session (and the same IPCP object)
